@@ -77,9 +77,9 @@ CHECKS.update({
 
 CHECKS.update({
  "C14": dict(engine="E4-threadsim", level="exploration", ref="4 (C14), 2.3 (E4), Appendix B",
-   note="Real client threads and the engine's real pool workers run the real code, but exactly one registered thread holds the baton at any time; the baton changes hands only at the hook-H3 points (pager lock, page latches, frame byte access, job queue push/pop/idle wait, task completion wait, worker start). Races that need a preemption inside a latch-protected region are out of reach. Locks whose critical sections contain no H3 point need no point. Teardown (handle drop, pool shutdown) runs after the scheduler is uninstalled and is not part of the schedule. shuttle/loom cannot drive this code (parking_lot).",
+   note="Real client threads and the engine's real pool workers run the real code, but exactly one registered thread holds the baton at any time; the baton changes hands only at the hook-H3 points (pager lock, page latches, frame byte access, job queue push/pop/idle wait, task completion wait, worker start). The pager lock and the page latches have parking_lot's queueing policy in the simulation (a waiting writer keeps new non-recursive readers out; a recursive shared acquisition goes ahead while the lock is held shared), so a re-taken read lock deadlocks with a waiting writer as it does in reality; locks without a hook site (the transaction table, the job queue mutex) have no modelled policy. Races that need a preemption inside a latch-protected region are out of reach. Locks whose critical sections contain no H3 point need no point. Teardown (handle drop, pool shutdown) runs after the scheduler is uninstalled and is not part of the schedule. shuttle/loom cannot drive this code (parking_lot).",
    technique="deterministic simulation of thread schedules: baton scheduler over cooperative hook points, seeded random interleavings of 2-4 client threads and 1-4 pool workers, exact deadlock detection, per-call step budget, sequence-stamped history with COUNT(*) linearizability bounds, recorded choice list as replay",
-   text="Seeded schedules of 2-4 client threads (own session or autocommit; each writes its own table, reads any table) over 1-4 pool workers. Oracles: no deadlock (no eligible thread while a client call is unfinished - detected at the step it happens), every call returns within a step budget, no engine thread panics, no statement fails for internal reasons, every SELECT COUNT(*) lies between the inserts acknowledged before it was invoked and those invoked before it returned, and the final contents equal the acknowledged (and committed) inserts."),
+   text="Seeded schedules of 2-4 client threads (own session or autocommit; all on one table or each on its own, reading any table; half of the runs also delete own rows, 40 % with a PRIMARY KEY index, a third with wide rows so that tables span several leaves and split during other clients' scans) over 1-4 pool workers. Oracles: no deadlock (no eligible thread while a client call is unfinished - detected at the step it happens), every call returns within a step budget, no engine thread panics, no statement fails for internal reasons, every SELECT COUNT(*) lies between the inserts acknowledged before it was invoked and those invoked before it returned, and the final contents equal the acknowledged (and committed) inserts minus deletes."),
 })
 
 E3B_NOTE = ("Drives the real Btree over a real Pager on a real file through hook H2 (facade::btree); the structural dump is read through the pager (so it also exercises eviction and re-read with tiny caches). Trusted base: the facade's plumbing (tuple construction, key serialisation, page walk), the BTreeMap model with the harness's own key order, the audit code. "
